@@ -442,6 +442,7 @@ func (g *gen) create(depth int) {
 	g.emit(c03Op{K: "nonce", A: a})
 	g.emit(c03Op{K: "codehash", A: a})
 	g.snapshot()
+	start := len(g.ops)
 	g.emit(c03Op{K: "create", A: a})
 	g.emit(c03Op{K: "setnonce", A: a, V: 1})
 	if g.r.Chance(1, 2) {
@@ -453,6 +454,7 @@ func (g *gen) create(depth int) {
 	}
 	if g.r.Chance(1, 4) {
 		g.revertTop()
+		g.probe(start)
 		return
 	}
 	g.emit(c03Op{K: "setcode", A: a, V: int64(g.r.Range(1, 6))})
@@ -573,15 +575,54 @@ func (g *gen) mutate(depth int) {
 	}
 }
 
+// probe reads back what the ops emitted since position start have written (used after a revert:
+// the getters must show the state before the frame)
+func (g *gen) probe(start int) {
+	var cands []c03Op
+	for _, o := range g.ops[start:] {
+		switch o.K {
+		case "setstate":
+			cands = append(cands, c03Op{K: "state", A: o.A, Key: o.Key})
+		case "add", "sub":
+			cands = append(cands, c03Op{K: "bal", A: o.A})
+		case "setnonce":
+			cands = append(cands, c03Op{K: "nonce", A: o.A})
+		case "setcode":
+			cands = append(cands, c03Op{K: "codehash", A: o.A}, c03Op{K: "codesize", A: o.A})
+		case "addal":
+			cands = append(cands, c03Op{K: "inal", A: o.A})
+		case "addslot":
+			cands = append(cands, c03Op{K: "slotinal", A: o.A, Key: o.Key})
+		case "prepare":
+			cands = append(cands, c03Op{K: "inal", A: o.A})
+		case "log":
+			cands = append(cands, c03Op{K: "logs"})
+		case "addrefund", "subrefund":
+			cands = append(cands, c03Op{K: "refund"})
+		case "suicide":
+			cands = append(cands, c03Op{K: "suicided", A: o.A}, c03Op{K: "bal", A: o.A})
+		case "create":
+			cands = append(cands, c03Op{K: "empty", A: o.A}, c03Op{K: "nonce", A: o.A})
+		}
+	}
+	for i := 0; i < 4 && len(cands) > 0; i++ {
+		j := g.r.Intn(len(cands))
+		g.emit(cands[j])
+		cands = append(cands[:j], cands[j+1:]...)
+	}
+}
+
 // a call frame: snapshot, body, reverted or not
 func (g *gen) frame(depth int) {
 	g.snapshot()
+	start := len(g.ops)
 	n := g.r.Range(1, 5)
 	for i := 0; i < n; i++ {
 		g.mutate(depth)
 	}
 	if g.r.Chance(2, 5) {
 		g.revertTop()
+		g.probe(start)
 		if g.r.Chance(1, 2) {
 			g.read()
 		}
